@@ -16,7 +16,7 @@ LEVEL = "model_checking"
 
 SHAPES = ["sum", "weighted", "zero", "cancel", "nested", "scaled", "dd", "nn", "three"]
 POINTS = ["x0", "x1", "x0c", "combo", "last"]
-OPS_FULL = ["oracle", "gradient", "value", "call", "stat", "fixed", "prox"]
+OPS_FULL = ["oracle", "gradient", "value", "call", "stat", "fixed", "prox", "els", "iprox", "epssub"]
 OPS_RED = ["oracle", "value", "stat", "prox"]
 TOL = Fraction(1, 10 ** 12)
 
@@ -107,6 +107,22 @@ class World(object):
             x, g, v = proximal_step(pt, f, 1)
             self.points["last"] = x
             self.note(fname, x, g, v)
+        elif name == "els":
+            from PEPit.primitive_steps import exact_linesearch_step
+            x, g, v = exact_linesearch_step(pt, f, [self.points["x1"]])
+            self.points["last"] = x
+            self.note(fname, x, g, v)
+        elif name == "iprox":
+            from PEPit.primitive_steps import inexact_proximal_step
+            x, gx, fx, w_, v_, fw, _ = inexact_proximal_step(pt, f, 2, opt="PD_gapI")
+            self.points["last"] = x
+            self.note(fname, x, gx, fx)
+            self.note(fname, w_, v_, fw)
+        elif name == "epssub":
+            from PEPit.primitive_steps import epsilon_subgradient_step
+            x, g0, f0, _ = epsilon_subgradient_step(pt, f, 0.5)
+            self.points["last"] = x
+            self.note(fname, pt, v=f0)
         else:
             raise KeyError(name)
 
@@ -263,7 +279,7 @@ def replay(case):
 def meta(tier):
     return dict(
         rule="all call histories up to the depth bound over {oracle, gradient, value, __call__, stationary_point, "
-             "fixed_point, proximal_step} x {terms, sum} x {x0, x1, a second object with x0's decomposition, a "
+             "fixed_point, proximal_step, exact_linesearch_step, inexact_proximal_step, epsilon_subgradient_step} x {terms, sum} x {x0, x1, a second object with x0's decomposition, a "
              "combination, the point created by the latest stationary_point/fixed_point/proximal_step} on 9 composite "
              "shapes (sum, weighted, zero weight, cancelling weight, nested, 3*(f/3), two differentiable, two "
              "non-differentiable, three terms); each history is replayed on a fresh PEP and judged by invariants I1-I6. "
